@@ -46,6 +46,7 @@ SPEC = {
              "(thorough: 3) preemptions at any step to any other live thread (counters enum_*); likewise six SpinLockMutex "
              "configurations (2..3 threads x 1..2 lock/try_lock operations, counters enum_lock_*)."),
     "coverage_extra": {"exhaustive_subspaces": "bounded-preemption enumeration (preemption bound 2 quick / 3 thorough, sequentially consistent execution, no spurious CAS) of 10 tiny queue configurations; enum_configs_exhausted counts configurations whose bounded schedule space was enumerated completely in this run, enum_configs_capped those cut by the run budget; the top-level exhaustive flag stays false"},
+    "rule_extra": " Round 2: an element counts as consumed when the consumer's callback takes it out of its slot; the consumer calls Clear() one time in eight.",
     "assumptions": ASSUME_COMMON + [
         "a failed Add is legitimate iff (successful Adds started before it finished) - (elements taken by Consume calls that returned before it started) >= capacity; sound upper bound of the occupancy Add can have seen",
         "progress is logical: a schedule exceeding 200000 steps continues under fair round-robin for another 200000 before no-progress is reported (longest schedule on the unchanged header: a few hundred steps)",
